@@ -10,6 +10,7 @@
 #include <asl/Socket.h>
 #include <asl/Thread.h>
 #include <atomic>
+#include <memory>
 #include <mutex>
 #include <thread>
 #include <sys/socket.h>
@@ -243,6 +244,7 @@ struct Hist {
 	bool start_nonblocking = true;
 	int spin_ms = 0;            // busy delay injected at the loop-stop / finished-flag points
 	bool destroy_at_once = false; // destroy the server as soon as stop(true) has returned
+	bool failed_bind_first = false; // a bind() to a port somebody else is listening on precedes the real binds
 	int fdorder = 0;              // two endpoints: bit0 the endpoint bound second gets the LOWER descriptor, bit1 the Unix path is bound first
 };
 
@@ -264,6 +266,24 @@ static void run_history(const Hist& h)
 	bool tcp = (h.kind & 1) || !(h.kind & 2), ux = (h.kind & 2) != 0;
 	// descriptors are handed out lowest-free-first: a placeholder opened before the first bind and closed before the second
 	// gives the endpoint bound second the lower descriptor (as happens in a program that closes a file between two binds)
+	// a bind() that fails (port taken by somebody else) must leave nothing behind: the server then serves its other endpoints only
+	int squatter = -1;
+	if (h.failed_bind_first) {
+		squatter = socket(AF_INET, SOCK_STREAM, 0);
+		sockaddr_in sa;
+		memset(&sa, 0, sizeof sa);
+		sa.sin_family = AF_INET;
+		sa.sin_addr.s_addr = htonl(INADDR_LOOPBACK);
+		sa.sin_port = 0;
+		socklen_t sl = sizeof sa;
+		if (squatter >= 0 && ::bind(squatter, (sockaddr*)&sa, sizeof sa) == 0 && listen(squatter, 1) == 0 && getsockname(squatter, (sockaddr*)&sa, &sl) == 0) {
+			bool ok = srv->bind("127.0.0.1", ntohs(sa.sin_port));
+			if (!ok)
+				vf::stats().cls("bind_failed_first(port_in_use)");
+			else
+				vf::stats().cls("bind_on_a_listening_port_succeeded(not judged)");
+		}
+	}
 	int placeholder = (tcp && ux && (h.fdorder & 1)) ? open("/dev/null", O_RDONLY) : -1;
 	for (int step = 0; step < 2; step++) {
 		bool do_unix = (step == 0) == ((h.fdorder & 2) != 0);
@@ -281,7 +301,22 @@ static void run_history(const Hist& h)
 		vf::stats().cls(srv->fd(1) < srv->fd(0) ? "two_endpoints.second_has_lower_descriptor" : "two_endpoints.ascending_descriptors");
 	g_jitter = h.jseed;
 	g_spin_ms = h.spin_ms;
-	srv->start(true);
+	// start(true) runs the accept loop in the server's own thread; start(false) runs it in the calling thread (here: a harness
+	// thread) and returns when the loop has ended
+	auto loop_returned_p = std::make_shared<std::atomic<bool>>(false); // (shared: the thread is detached if the loop never ends)
+	std::atomic<bool>& loop_returned = *loop_returned_p;
+	std::thread loopth;
+	if (h.start_nonblocking)
+		srv->start(true);
+	else {
+		loopth = std::thread([srv, loop_returned_p]() {
+			srv->start(false);
+			*loop_returned_p = true;
+		});
+		double tw = vf::now();
+		while (!srv->running() && vf::now() - tw < 10)
+			usleep(100);
+	}
 
 	auto launch = [&](std::vector<ClientResult>& res, std::vector<std::thread>& ths, int n, int base, const char* tag) {
 		res.resize(n);
@@ -357,10 +392,12 @@ static void run_history(const Hist& h)
 	std::atomic<bool> stop_done{false};
 	bool running_after = true;
 	int entries_at_stop = -1, exits_at_stop = -1, accepts_at_stop = -1;
+	bool loop_returned_at_stop = true;
 	std::thread stopper([&]() {
 		srv->stop(true);
 		// --- the moment stop(true) returns ---
 		running_after = srv->running();
+		loop_returned_at_stop = h.start_nonblocking || loop_returned.load();
 		{
 			std::lock_guard<std::mutex> l(rec->m);
 			entries_at_stop = rec->entries;
@@ -405,17 +442,66 @@ static void run_history(const Hist& h)
 	// watch for late serve() entries, then destroy the server and watch again (ASan catches a thread touching it)
 	if (!h.destroy_at_once)
 		usleep(h.poke ? 30000 : 150000);
-	if (!hung) {
+	bool loop_stuck = false;
+	if (loopth.joinable()) {
+		// the blocking start() call returns once the loop has ended (it has, when stop(true) returned; allow for the last few statements)
+		double tw = vf::now();
+		while (!loop_returned && vf::now() - tw < 20)
+			usleep(200);
+		if (loop_returned)
+			loopth.join();
+		else {
+			loop_stuck = true;
+			loopth.detach();
+		}
+	}
+	std::atomic<int> canary_bad{0}, canary_rounds{0};
+	if (!hung && !loop_stuck) {
+		// while the server is destroyed, another thread keeps opening descriptors of its own and checks that each is still ITS open
+		// descriptor a moment later: the destructor closes the server's descriptors, each exactly once, and nobody else's
+		std::atomic<bool> canary_stop{false};
+		std::thread canary([&]() {
+			while (!canary_stop) {
+				int fds[6];
+				struct stat st0[6], st1;
+				for (int i = 0; i < 6; i++) {
+					fds[i] = open("/dev/null", O_RDONLY);
+					if (fds[i] >= 0)
+						fstat(fds[i], &st0[i]);
+				}
+				for (volatile int spin = 0; spin < 2000; spin++) {
+				}
+				for (int i = 0; i < 6; i++)
+					if (fds[i] >= 0) {
+						if (fstat(fds[i], &st1) != 0 || st1.st_rdev != st0[i].st_rdev || st1.st_ino != st0[i].st_ino)
+							canary_bad++;
+						if (close(fds[i]) != 0)
+							canary_bad++;
+					}
+				canary_rounds++;
+			}
+		});
+		while (canary_rounds < 3)
+			sched_yield();
 		rec->server_destroyed = true;
 		delete srv;
+		usleep(2000);
+		canary_stop = true;
+		canary.join();
 		usleep((h.poke ? 30000 : 150000) + h.spin_ms * 1000);
 	}
+	if (err.empty() && canary_bad)
+		err = vf::str("while the server was being destroyed, ", canary_bad.load(), " descriptors opened by another thread were closed or replaced under it (a descriptor closed twice by the destructor)");
+	if (err.empty() && loop_stuck)
+		err = "stop(true) returned, but the blocking start(false) call that runs the accept loop had not returned 20 s later";
 	// (in-flight clients that were never accepted see the listening socket go away now)
 	for (auto& t : t2)
 		t.join();
 	g_jitter = 0;
 	g_spin_ms = 0;
 	unlink(path.c_str());
+	if (squatter >= 0)
+		close(squatter);
 
 	std::lock_guard<std::mutex> l(rec->m);
 	std::map<std::string, const ClientResult*> sent;
@@ -494,13 +580,14 @@ static void run_history(const Hist& h)
 		if (c.connected)
 			inflight = true;
 	vf::stats().cls(h.sequential ? "mode.sequential" : "mode.concurrent");
+	vf::stats().cls(h.start_nonblocking ? "start.own_thread" : "start.blocking_in_caller_thread");
 	vf::stats().cls(ux && tcp ? "bind.both" : ux ? "bind.unix" : "bind.tcp");
 	if (conc >= 2)
 		vf::stats().cls("concurrent_handlers>=2");
 	if (inflight)
 		vf::stats().cls("connection_in_flight_at_stop");
 	vf::stats().cls("connections_served", rec->entries);
-	if (!hung)
+	if (!hung && !loop_stuck)
 		delete rec; // (on a hang the server thread may still use it)
 	if (!err.empty())
 		VF_FAIL(err);
@@ -522,6 +609,8 @@ static Hist parse_hist(const vf::Op& o)
 	h.spin_ms = (int)(o.i(10) < 0 ? 0 : o.i(10) > 300 ? 300 : o.i(10));
 	h.destroy_at_once = o.i(11) & 1;
 	h.fdorder = (int)(o.i(12, 0) & 3);
+	h.start_nonblocking = !(o.i(13, 0) & 1);
+	h.failed_bind_first = (o.i(14, 0) & 1) != 0;
 	return h;
 }
 
@@ -545,7 +634,7 @@ void vf_search(const vf::Args& a)
 		                  auto& x = std::get<0>(t);
 		                  auto& y = std::get<1>(t);
 		                  vf::Case c;
-		                  c.add(vf::Op("hist", {std::get<0>(x), std::get<1>(x), std::get<2>(x), std::get<3>(x), std::get<0>(y), std::get<1>(y), std::get<2>(y), std::get<3>(y), std::get<4>(y), std::get<5>(y), std::get<2>(t).first, std::get<2>(t).first ? 1 : std::get<2>(t).second, (std::get<5>(y) / 7) % 4}));
+		                  c.add(vf::Op("hist", {std::get<0>(x), std::get<1>(x), std::get<2>(x), std::get<3>(x), std::get<0>(y), std::get<1>(y), std::get<2>(y), std::get<3>(y), std::get<4>(y), std::get<5>(y), std::get<2>(t).first, std::get<2>(t).first ? 1 : std::get<2>(t).second, (std::get<5>(y) / 7) % 4, (std::get<5>(y) / 29) % 4 == 0 ? 1 : 0, (std::get<5>(y) / 113) % 3 == 0 ? 1 : 0}));
 		                  return c;
 	                  });
 	vf::check_cases("history", a.n(12, 200), 100, g, [](const vf::Case& c) {
@@ -562,6 +651,6 @@ void vf_search(const vf::Args& a)
 			vf::stats().cls("spin_delay_at_loop_stop_and_thread_entry+destroy_at_once");
 		else if (o.i(11) & 1)
 			vf::stats().cls("destroy_at_once");
-		vf::stats().sample("hist kind seq n_before n_inflight pattern early% stop_delay_us poke serve_delay_us jitter_seed spin_ms destroy_at_once fd_order: " + vf::serialize(c), 4);
+		vf::stats().sample("hist kind seq n_before n_inflight pattern early% stop_delay_us poke serve_delay_us jitter_seed spin_ms destroy_at_once fd_order blocking_start failed_bind_first: " + vf::serialize(c), 4);
 	});
 }
